@@ -16,7 +16,8 @@ THEOREMS = [
     ('EAO.Properties.C09', 'EAO.C09.assemble_perm', 'for a permutation of the asset list every feasible point rearranges block-wise into a feasible point of the permuted problem with the same value and the same block per asset (assets whose rows mention only their own variables)'),
 ]
 from ..comp import nestedperm as NP
-THEOREMS = THEOREMS + NP.THEOREMS_C09_NESTED
+from ..comp import scaledperm as SPM
+THEOREMS = THEOREMS + NP.THEOREMS_C09_NESTED + SPM.THEOREMS_C09_SCALED
 COMPONENTS = ['assemble also on the captured asset problems of the portfolios that went through a door (json, set_param) and of the nested streams', 'hypotheses of the assembly theorems (well-formedness of asset problems) evaluated on every captured real asset problem', 'assemble on captured asset problems for the original, the renamed, the permuted and the renamed-in-place portfolio (hypotheses also on the latter)']
 RULE = ('random portfolios, each re-run (a) under an adversarial injective renaming of assets and nodes (numeric names, prefixes/suffixes of each other, names containing " (", "_internal_", "nan") and (b) under a random permutation of the assets, '
         '(c) rename-inplace: the objects are built once under the original names and, as drawn, optimised / set up / left alone; then the very same Node and Asset objects (incl. base assets of scaled and wrapped assets of structured assets) '
@@ -118,6 +119,10 @@ def scenarios(seed, tier):
     _rnp = random.Random(seed * 104729 + 909)
     for i in range(80 if tier == 'quick' else 500):
         yield 'np%d' % i, {'_stream': 'nestedperm', 'case': NP.gen_case(random.Random(_rnp.getrandbits(48))), 'solve': i % 4 == 0}
+    # a ScaledAsset over a structure whose inner list is permuted: VarPerm of the two real scaled problems (comp/scaledperm.py)
+    _rsp = random.Random(seed * 104729 + 910)
+    for i in range(40 if tier == 'quick' else 300):
+        yield 'spm%d' % i, {'_stream': 'scaledperm', 'case': SPM.gen_case(random.Random(_rsp.getrandbits(48))), 'solve': i % 4 == 0}
     # probe at the point outside the hypothesis of EAO.C09N.var_labels_injective: wrapped asset names containing '__' (finding F-09f)
     yield 'np_probe', {'_stream': 'nestedperm_probe'}
 
@@ -674,6 +679,11 @@ INFO_KEYS = ('amap', 'nmap', 'perm', 'inplace', 'linked', 'stage2', 'prices2', '
 
 
 def run_case(scn, drv):
+    if isinstance(scn, dict) and scn.get('_stream') == 'scaledperm':
+        r0 = SPM.run_case(scn['case'], drv, with_oracle=True, solve=bool(scn.get('solve')))
+        return {'evaluated': 1, 'nontrivial': True, 'features': ['stream:scaledperm'],
+                'disagreements': [d if isinstance(d, dict) else {'component': 'scaled over permuted structure', 'detail': d} for d in r0['disagreements']],
+                'violations': r0['violations']}
     if isinstance(scn, dict) and scn.get('_stream') == 'nestedperm_probe':
         v_c, n_c = NP.collision_demo('c')
         v_x, n_x = NP.collision_demo('a__b')
